@@ -150,6 +150,10 @@ class Response(object):
             if type(value) is not str:
                 # for str subclasses like ImageFormat
                 value = str(value)
+            # values can come from the request (e.g. FORMAT or INFO_FORMAT in the content type): control
+            # characters would start a new header line, and WSGI only allows latin-1 characters
+            value = ''.join(c for c in value if ' ' <= c != '\x7f')
+            value = value.encode('latin-1', 'replace').decode('latin-1')
             headers.append((key, value))
         return headers
 
